@@ -19,20 +19,22 @@ LEVEL_TEXT = (
     "listed site: dynamic SGE's on-demand extension of the genotype itself) or foreign (the decider's own stream,"
     " the genotype's stored search stream, a newly built source); foreign draws are findings, keyed by entry "
     "point, source and drawing function; (R2) every attribute / item store reachable from a mapping targets an "
-    "object created during that mapping, or is allow-listed with a reason: state reachable from the "
-    "representation or the genotype must not be written, because it outlives the mapping and makes the result "
-    "depend on mapping history. (R3) the permitted draw is an extension of the genotype: Genotype.get is "
-    "interpreted on gene tables without the key / with 0, 1, 2 genes and positions 0, 1 - afterwards the type's "
-    "list is at least position+1 long in the genotype itself, the stored gene is returned, existing genes and "
-    "other types are untouched and exactly the missing genes were drawn. (R4) memo-key completeness (sa/memo.py) "
-    "over the methods of the representation modules: wherever an object looks an entry up, fills it when missing "
-    "and uses it, every parameter the stored value depends on (data flow through locals and control flow through "
-    "the branches it is computed under) is determined by the key - a key built by injective constructors only "
-    "(tuples, aliases) determines its parts, a computed key ('hi - lo') determines only itself; cursors (a new "
-    "value computed from the entry) and setters are not memos; (R5) the representation modules write no module-"
-    "level or class-level containers (a dict created in a class body and modified through self is shared by every"
-    " mapping), use no memoising decorators and no shared stateful defaults. Decides which source each decision "
-    "is drawn from for all grammars and genotypes; does not execute a mapping."
+    "object created during that mapping, or is allow-listed with a reason, or is a complete memo (R4's analysis: "
+    "the key determines the stored value) whose value is computed from the key by methods of the read-only "
+    "grammar and pure builtins alone: state reachable from the representation or the genotype must not be "
+    "written, because it outlives the mapping and makes the result depend on mapping history. (R3) the permitted "
+    "draw is an extension of the genotype: Genotype.get is interpreted on gene tables without the key / with 0, "
+    "1, 2 genes and positions 0, 1 - afterwards the type's list is at least position+1 long in the genotype "
+    "itself, the stored gene is returned, existing genes and other types are untouched and exactly the missing "
+    "genes were drawn. (R4) memo-key completeness (sa/memo.py) over the methods of the representation modules: "
+    "wherever an object looks an entry up, fills it when missing and uses it, every parameter the stored value "
+    "depends on (data flow through locals and control flow through the branches it is computed under) is "
+    "determined by the key - a key built by injective constructors only (tuples, aliases) determines its parts, a"
+    " computed key ('hi - lo') determines only itself; cursors (a new value computed from the entry) and setters "
+    "are not memos; (R5) the representation modules write no module-level or class-level containers (a dict "
+    "created in a class body and modified through self is shared by every mapping), use no memoising decorators "
+    "and no shared stateful defaults. Decides which source each decision is drawn from for all grammars and "
+    "genotypes; does not execute a mapping."
 )
 
 PERMIT_DRAW = {
